@@ -4,6 +4,7 @@ package main
 
 import (
 	"fmt"
+	"go/constant"
 	"go/token"
 	"sort"
 	"strings"
@@ -118,6 +119,7 @@ func runFillIn(c *Ctx) {
 		return
 	}
 	fname := shortName(fn)
+	blankIsInvalid(c, dec)
 	type side struct {
 		call     *ssa.Call
 		val, flg ssa.Value
@@ -254,6 +256,96 @@ func runFillIn(c *Ctx) {
 			}
 		}
 	}
+}
+
+// blankIsInvalid: the fill-in keys on the validity flag of the time decoder, and "only one of the two is given" means
+// that the other cell is blank (or its column absent, which reads as blank). So the decoder must answer "not valid"
+// for the empty string: every return that can carry a true flag is dominated by the false edge of an emptiness test of
+// the argument (s == "", len(s) == 0, len(s) < k, the same of strings.TrimSpace(s)).
+func blankIsInvalid(c *Ctx, dec *ssa.Function) {
+	p := c.P
+	if len(dec.Params) == 0 || len(dec.Blocks) == 0 {
+		return
+	}
+	s := dec.Params[0]
+	flagIdx := -1
+	for i := 0; i < dec.Signature.Results().Len(); i++ {
+		if shortType(dec.Signature.Results().At(i).Type()) == "bool" {
+			flagIdx = i
+		}
+	}
+	if flagIdx < 0 {
+		return
+	}
+	isArg := func(v ssa.Value) bool {
+		if v == ssa.Value(s) {
+			return true
+		}
+		if call, ok := v.(*ssa.Call); ok && calleeName(call) == "strings.TrimSpace" && call.Call.Args[0] == ssa.Value(s) {
+			return true
+		}
+		return false
+	}
+	nonEmptyEdge := func(ce condEdge) bool {
+		cond, val := ce.Cond, ce.Val
+		for {
+			u, isNot := cond.(*ssa.UnOp)
+			if !isNot || u.Op != token.NOT {
+				break
+			}
+			cond, val = u.X, !val
+		}
+		bo, ok := cond.(*ssa.BinOp)
+		if !ok {
+			return false
+		}
+		if k, isK := bo.Y.(*ssa.Const); isK && isArg(bo.X) && k.Value != nil && k.Value.Kind() == constant.String && constant.StringVal(k.Value) == "" {
+			return (bo.Op == token.EQL && !val) || (bo.Op == token.NEQ && val)
+		}
+		if call, isCall := bo.X.(*ssa.Call); isCall {
+			if b, isB := call.Call.Value.(*ssa.Builtin); isB && b.Name() == "len" && isArg(call.Call.Args[0]) {
+				if k, isK := constInt(bo.Y); isK {
+					switch bo.Op {
+					case token.EQL:
+						return k == 0 && !val
+					case token.NEQ:
+						return k == 0 && val
+					case token.GTR:
+						return k >= 0 && val
+					case token.GEQ:
+						return k >= 1 && val
+					case token.LSS:
+						return k >= 1 && !val
+					case token.LEQ:
+						return k >= 0 && !val
+					}
+				}
+			}
+		}
+		return false
+	}
+	bad := ""
+	n := 0
+	for _, b := range dec.Blocks {
+		ret, isRet := b.Instrs[len(b.Instrs)-1].(*ssa.Return)
+		if !isRet {
+			continue
+		}
+		if bv, isC := constBool(ret.Results[flagIdx]); isC && !bv {
+			continue
+		}
+		n++
+		ok := false
+		for _, ce := range dominatingConds(b) {
+			if nonEmptyEdge(ce) {
+				ok = true
+			}
+		}
+		if !ok && bad == "" {
+			bad = "the return at " + p.ipos(ret) + " can answer `valid` without the argument having been tested for emptiness"
+		}
+	}
+	c.Check(bad == "" && n > 0, "FILL", shortName(dec), "a blank cell is not a valid time", p.pos(dec.Pos()), fmt.Sprintf("all %d returns that can answer `valid` lie behind the false edge of an emptiness test of the cell", n), bad+": a blank arrival or departure counts as given (as 0s), and the other side is not copied into it")
 }
 
 // fillViaHelper: the fill-in rule is applied by a helper h. Either the two cells (or their column objects) are handed
